@@ -54,6 +54,10 @@ def text_layout(rep, u, fname="sa_addr_port_to_str", addr_callee="sa_addr_to_str
     cases = 0
     bad = []
     undec = None
+    called = {c.get("fn") for _, _, c, _ in fn.calls()}
+    for cal in (addr_callee, port_callee, port_get):
+        if cal not in called:
+            raise driver.AnalysisBroken("%s no longer calls %s: the layout rule's callee table is out of date" % (fname, cal))
     for fam, size, addr_ok, port in itertools.product((1, 2, 10), (1, 2, 3, 4, 9, 16, 64), (True, False), (0, 7, 65535)):
         # the text the address callee produces: as long as its capacity allows (it returns 0 only if it fits)
         for L in ((1, 2, 5, 39) if addr_ok else (0,)):
